@@ -41,3 +41,25 @@ Definition eval_nilcmp (c : c13_nilcmp) (r : c13_row) : bool :=
 (* the answer of the engine for `<name> IS [NOT] NULL` on a row, through the rewrite *)
 Definition sql_is_null_pred (neg : bool) (n : bytes) (r : c13_row) : bool :=
   eval_nilcmp (isnull_rewrite neg n) r.
+
+(* ---- IS [NOT] NULL inside a CASE that is the ARGUMENT of an aggregate of a window query ----
+   Code anchors: aggregator/group_aggregator.go GroupAggregator.Add (the branch with an expression
+   evaluator: the expression is evaluated on EVERY row of the window, also on a row that has none of
+   the columns it reads), expr/evaluator.go evaluateIsOperator (absent column = NULL), then the
+   aggregate (sum / max / min) folds the per-row values.
+   `CASE WHEN <name> IS [NOT] NULL THEN 1 ELSE 0 END` is a 0/1 flag that is never NULL. *)
+Definition c13_flag (neg : bool) (n : bytes) (r : c13_row) : N :=
+  if sql_is_null_pred neg n r then 1%N else 0%N.
+
+Definition c13_sum_flags (neg : bool) (n : bytes) (rows : list c13_row) : N :=
+  fold_right (fun r acc => (c13_flag neg n r + acc)%N) 0%N rows.
+
+Definition c13_max_flags (neg : bool) (n : bytes) (rows : list c13_row) : N :=
+  fold_right (fun r acc => N.max (c13_flag neg n r) acc) 0%N rows.
+
+(* min over a non-empty window (1 is the neutral element for 0/1 flags) *)
+Definition c13_min_flags (neg : bool) (n : bytes) (rows : list c13_row) : N :=
+  fold_right (fun r acc => N.min (c13_flag neg n r) acc) 1%N rows.
+
+(* the checker clause: the two sums partition the rows of the window *)
+Definition c13_partition_ok (nulls notnulls total : N) : bool := N.eqb (nulls + notnulls) total.
